@@ -215,3 +215,63 @@ Theorem C14_header_entry_description : forall (f : hfmt) (k : str) (v : value) (
   desc <> [] -> header_entry f k v desc = format_desc f desc ++ header_entry f k v [].
 Proof. exact header_entry_desc. Qed.
 Print Assumptions C14_header_entry_description.
+
+(* ---- the formats of the generated header: include guard, nasm, json ---- *)
+
+(* output_format 'c' with macro_name M: entries between "#ifndef M / #define M" and "#endif" *)
+Theorem C14_header_guard : forall (macro : str) (d : conf),
+  macro <> [] ->
+  dump_header HC macro d
+  = c_prelude (s2l "#ifndef " ++ macro ++ [10] ++ s2l "#define " ++ macro)
+    ++ concat (map (header_key HC d) (sorted_keys d)) ++ s2l "#endif" ++ [10].
+Proof. exact header_guard_c. Qed.
+Print Assumptions C14_header_guard.
+Theorem C14_header_pragma_once : forall d : conf,
+  dump_header HC [] d = c_prelude (s2l "#pragma once") ++ concat (map (header_key HC d) (sorted_keys d)).
+Proof. exact header_pragma_once. Qed.
+Print Assumptions C14_header_pragma_once.
+Theorem C14_header_nasm_no_guard : forall (macro : str) (d : conf),
+  dump_header HNasm macro d = nasm_prelude ++ concat (map (header_key HNasm d) (sorted_keys d)).
+Proof. exact header_nasm_no_guard. Qed.
+Print Assumptions C14_header_nasm_no_guard.
+
+(* output_format 'json': one object with exactly the items of the data, once each, keys strictly
+   increasing; every string printable ASCII (escaped as json.encoder does) *)
+Theorem C14_header_json_exact : forall d : conf,
+  NoDup (keys d) ->
+  exists es : list entry,
+    Permutation es d /\ StronglySorted str_lt (map fst es) /\
+    dump_json d = (123 :: join [44; 32] (map json_entry es) ++ [125])%N.
+Proof. exact json_exact. Qed.
+Print Assumptions C14_header_json_exact.
+Theorem C14_header_json_strings_ascii : forall s : str, forallb printable (json_str s) = true.
+Proof. exact json_str_printable. Qed.
+Print Assumptions C14_header_json_strings_ascii.
+
+(* ---- #cmakedefine VAR tok ... (get_cmake_define) ---- *)
+Theorem C14_cmakedefine_tokens : forall (at_only : bool) (d : conf) (lead gap mid name : str)
+    (toks : list (str * str)) (trail : str) (v : value),
+  blank lead = true -> blank gap = true -> blank mid = true -> mid <> [] ->
+  token name = true -> forallb piece_ok toks = true -> blank trail = true ->
+  contains (s2l "cmakedefine01") (cmdefine_line_toks lead gap mid name toks trail) = false ->
+  lookup d name = Some v -> truthy v = true ->
+  do_define_cmake at_only d (cmdefine_line_toks lead gap mid name toks trail)
+  = match subst_cmake at_only d
+            (strip (s2l "#define " ++ name ++ [32]%N ++ cm_define_value d (map snd toks)) ++ [10]%N) with
+    | Ok (o, _) => Ok o
+    | MesonErr => MesonErr | PyErr c => PyErr c | OutOfFuel => OutOfFuel
+    end.
+Proof. exact cmakedefine_tokens. Qed.
+Print Assumptions C14_cmakedefine_tokens.
+Theorem C14_cmakedefine_tokens_plain : forall (at_only : bool) (d : conf) (lead gap mid name : str)
+    (toks : list (str * str)) (trail : str) (v : value) (val : str) (z : char),
+  blank lead = true -> blank gap = true -> blank mid = true -> mid <> [] ->
+  token name = true -> forallb piece_ok toks = true -> blank trail = true ->
+  contains (s2l "cmakedefine01") (cmdefine_line_toks lead gap mid name toks trail) = false ->
+  lookup d name = Some v -> truthy v = true ->
+  cm_define_value d (map snd toks) = val ++ [z] -> is_space z = false ->
+  forallb cm_inert (name ++ val ++ [z]) = true ->
+  do_define_cmake at_only d (cmdefine_line_toks lead gap mid name toks trail)
+  = Ok (s2l "#define " ++ name ++ [32]%N ++ val ++ [z] ++ [10]%N).
+Proof. exact cmakedefine_tokens_plain. Qed.
+Print Assumptions C14_cmakedefine_tokens_plain.
